@@ -44,6 +44,10 @@ class SequenceOfOrSetOfPayloadDecoder(object):
     def __call__(self, pyObject, asn1Spec, decodeFun=None, **options):
         asn1Value = asn1Spec.clone()
 
+        # an empty Python sequence stands for an empty value, not for
+        # the absence of value
+        asn1Value.clear()
+
         for pyValue in pyObject:
             asn1Value.append(decodeFun(pyValue, asn1Spec.componentType), **options)
 
